@@ -20,7 +20,7 @@ CASE_BUDGET_S = 900
 
 SHAPES = [(), (1,), (2,), (3,), (4,), (6,), (1, 1), (1, 3), (3, 1), (1, 4), (4, 1), (2, 2), (2, 3), (1, 2, 2), (2, 1, 3),
           (2, 2, 2), (3, 2, 1), (1, 6, 1)]
-VARIANTS = ["canon", "T", "F", "slice", "zeroterm"]
+VARIANTS = ["canon", "T", "F", "slice", "zeroterm", "rev", "readonly"]
 
 META = {
     "rule": "tagged polynomial arrays of 18 shapes (0-3 dims, size-1 axes, single-row matrices) x 5 representations x "
@@ -308,7 +308,7 @@ def cases(tier, seed):
         for var in VARIANTS:
             if var in ("T", "F") and len(shape) < 2:
                 continue
-            if var == "slice" and len(shape) < 1:
+            if var in ("slice", "rev") and len(shape) < 1:
                 continue
             out.append({"k": "unary", "s": list(shape), "v": var})
             out.append({"k": "index", "s": list(shape), "v": var})
